@@ -23,13 +23,15 @@ Definition is_nil (b : bytes) : bool := match b with [] => true | _ => false end
    transferring bytes: socket.timeout, or any other socket error
    (EWOULDBLOCK/BlockingIOError on a non-blocking socket, EINTR, ECONNRESET,
    ...; code = errno). *)
-Inductive event := Chunk (b : bytes) | TimeoutEv | ErrorEv (code : nat).
+(* SlowChunk: a delivery that arrives only after the caller's deadline (its timeout, if it has one) has
+   passed: the socket call itself succeeds, the code's own clock check fires afterwards. *)
+Inductive event := Chunk (b : bytes) | TimeoutEv | ErrorEv (code : nat) | SlowChunk (b : bytes).
 Definition net := list event.
 
 Fixpoint flat (n : net) : bytes :=
   match n with
   | [] => []
-  | Chunk b :: r => b ++ flat r
+  | Chunk b :: r | SlowChunk b :: r => b ++ flat r
   | _ :: r => flat r
   end.
 
@@ -39,7 +41,7 @@ Fixpoint flat (n : net) : bytes :=
 Fixpoint intrs (n : net) : list exn :=
   match n with
   | [] => []
-  | Chunk _ :: r => intrs r
+  | Chunk _ :: r | SlowChunk _ :: r => intrs r
   | TimeoutEv :: r => Timeout :: intrs r
   | ErrorEv c :: r => OSErr c :: intrs r
   end.
@@ -51,23 +53,28 @@ Definition timeouts (n : net) : nat := length (intrs n).
 Fixpoint wf_net (n : net) : bool :=
   match n with
   | [] => true
-  | Chunk b :: r => negb (is_nil b) && wf_net r
+  | Chunk b :: r | SlowChunk b :: r => negb (is_nil b) && wf_net r
   | _ :: r => wf_net r
   end.
+
+Definition slow_head (n : net) : bool := match n with SlowChunk _ :: _ => true | _ => false end.
 
 (* ---- the sending network: what sock.send will do ------------------------- *)
 (* SAccept k: the kernel takes min(k+1, len data) bytes; STimeoutEv: the call
    raises socket.timeout; SErrorEv c: it raises another socket error.  Script
    exhausted = everything is accepted. *)
-Inductive sev := SAccept (k : nat) | STimeoutEv | SErrorEv (code : nat).
+Inductive sev := SAccept (k : nat) | STimeoutEv | SErrorEv (code : nat)
+             | SSlowAccept (k : nat).   (* like SAccept, but the deadline has passed when it returns *)
 
 Fixpoint sintrs (s : list sev) : list exn :=
   match s with
   | [] => []
-  | SAccept _ :: r => sintrs r
+  | SAccept _ :: r | SSlowAccept _ :: r => sintrs r
   | STimeoutEv :: r => Timeout :: sintrs r
   | SErrorEv c :: r => OSErr c :: sintrs r
   end.
+
+Definition sslow_head (s : list sev) : bool := match s with SSlowAccept _ :: _ => true | _ => false end.
 
 (* ---- maxsize arguments ---------------------------------------------------- *)
 (* _UNSET (use the instance default) | None (no limit; the code substitutes
@@ -142,10 +149,12 @@ Definition OutOfFuel := OtherExn 99.
    of the side the call belongs to (getrecvbuffer() / getsendbuffer()) and the
    scripted socket's counter for that side (bytes taken from the network so
    far / bytes put on the wire so far) *)
-Record step_obs := mkObs { o_out : outcome; o_buf : bytes; o_cnt : nat }.
+(* ... and the number of interruptions the scripted socket of that side has not raised yet *)
+Record step_obs := mkObs { o_out : outcome; o_buf : bytes; o_cnt : nat; o_left : nat }.
 
 Definition step_obs_eqb (a b : step_obs) : bool :=
-  outcome_eqb (o_out a) (o_out b) && bytes_eqb (o_buf a) (o_buf b) && Nat.eqb (o_cnt a) (o_cnt b).
+  outcome_eqb (o_out a) (o_out b) && bytes_eqb (o_buf a) (o_buf b) && Nat.eqb (o_cnt a) (o_cnt b) &&
+  Nat.eqb (o_left a) (o_left b).
 
 (* full public view at the end of a history *)
 Record final_obs := mkFinal { f_rbuf : bytes; f_consumed : nat; f_sbuf : bytes; f_wire : bytes }.
